@@ -310,6 +310,24 @@ func chains(quick bool, n int) []chain {
 	add(chain{Args: S("fill-down -a -f g then sec2gmt i")})
 	add(chain{Args: S("count then put $j=1")})
 	add(chain{Args: S("group-by g then head -n 1")})
+	// verbs that amplify or drop records, combined with early exit
+	rep := func(r []string, k int) []string {
+		var o []string
+		for _, x := range r {
+			for j := 0; j < k; j++ {
+				o = append(o, x)
+			}
+		}
+		return o
+	}
+	add(chain{Args: S("repeat -n 3 then head -n 2"), Ref: func(r []string) (string, string, bool) { return join(headN(rep(r, 3), 2)), "", true }})
+	add(chain{Args: S("repeat -n 2 then tee @T then head -n 1"), Ref: func(r []string) (string, string, bool) { return join(headN(rep(r, 2), 1)), join(rep(r, 2)), true }})
+	add(chain{Args: S("head -n 2 then repeat -n 2"), Ref: func(r []string) (string, string, bool) { return join(rep(headN(r, 2), 2)), "", true }})
+	add(chain{Args: S("unsparsify then head -n 1"), Ref: func(r []string) (string, string, bool) { return join(headN(r, 1)), "", true }})
+	add(chain{Args: []string{"put", "-q", "emit $*", "then", "head", "-n", "1"}})
+	add(chain{Args: S("nothing then cat"), Ref: func(r []string) (string, string, bool) { return "", "", true }})
+	add(chain{Args: S("count-distinct -f g then head -n 1")})
+	add(chain{Args: S("sec2gmt i then head -n 1")})
 	// "a run that fails under one setting fails under all": the failing record is reached in every schedule (no early exit
 	// in these chains), so every schedule and every batch size must fail
 	add(chain{Args: []string{"put", "$y = asserting_int($g)"}, FailsFrom: 1})
